@@ -289,6 +289,8 @@ def h_stream_error(r):
     kids = [(kind, {}, [], None)]
     if kind == "conflict" and r.random() < 0.7:
         kids.append(("text", {}, [], b"Replaced by new connection"))
+        if r.random() < 0.4:
+            kids.reverse()          # (the condition and its text come in either order)
     return ("stream:error", {}, kids, None)
 
 
